@@ -88,6 +88,16 @@ MEDDLY::binary_operation::~binary_operation()
 void MEDDLY::binary_operation::compute(const dd_edge &ar1,
         const dd_edge &ar2, dd_edge &res)
 {
+    //
+    // The edges must belong to the forests this operation was built for.
+    // (Some operations register their operand forests in swapped order.)
+    //
+    const bool opnds_ok =
+        (ar1.isAttachedTo(arg1F) && ar2.isAttachedTo(arg2F)) ||
+        (ar1.isAttachedTo(arg2F) && ar2.isAttachedTo(arg1F));
+    if (!opnds_ok || !res.isAttachedTo(resF)) {
+        throw error(error::FOREST_MISMATCH, __FILE__, __LINE__);
+    }
     if (!checkForestCompatibility()) {
         throw error(error::INVALID_OPERATION, __FILE__, __LINE__);
     }
